@@ -221,6 +221,23 @@ def discharge_by_pattern(crate, e):
                 return "division/remainder by the non-zero constant %s" % v
         if msg.startswith("Overflow") and all(isinstance(const_val(o), int) for o in ops):
             return "constant operands"
+        if msg == "Overflow(Add)" and len(ops) == 2:
+            k = const_val(ops[1]) if isinstance(const_val(ops[1]), int) else const_val(ops[0])
+            other = ops[0] if isinstance(const_val(ops[1]), int) else ops[1]
+            if isinstance(k, int) and not isinstance(k, bool) and 0 <= k <= 64 and isinstance(other, dict):
+                sl = b.slice(other, at=e.bb, through_calls=False)
+                nxt = [c for c in sl.calls]
+                if nxt and all(c.matches(r"std::iter::Iterator::next") and re.search(r"Enumerate<|Range<usize>|Range<u\d+>", (c.callee.get("self_ty") or "") + " ".join(c.callee.get("targs", []))) for c in nxt) \
+                        and not [a for a in sl.atoms if a[0] == "binop" and a[1] not in ("AddWithOverflow", "Add")]:
+                    return "index of an in-memory sequence (enumerate/range, <= isize::MAX) plus a small constant cannot overflow"
+                cs = [c for c in sl.consts() if not (isinstance(c, str) and c.startswith("<"))]
+                real_fields = {f for f in sl.fields() if f[0] not in ("tuple",)}
+                if not sl.calls and not sl.params() and not real_fields and all(isinstance(c, int) and abs(c) <= 64 for c in cs):
+                    return "induction counter built from small constants (would need 2^64 iterations to overflow)"
+        if msg == "Overflow(Sub)" and len(ops) == 2:
+            why = index_below_len(b, ops, e.bb)
+            if why:
+                return why
         if msg.startswith("Overflow(Div") or msg.startswith("Overflow(Rem"):
             # signed MIN / -1 only; unsigned never
             if all("u" in (o.get("ty") or o.get("place", {}).get("ty", "")) for o in ops if isinstance(o, dict)):
@@ -235,6 +252,53 @@ def discharge_by_pattern(crate, e):
         c = e.meta["call"]
         if all(isinstance(const_val(a), int) for a in c.args) and (len(c.args) < 2 or const_val(c.args[1]) < 1000000000):
             return "constant arguments in range"
+    return None
+
+
+def _origin_locals(b, call, k=0):
+    l = operand_local(call.args[k]) if len(call.args) > k else None
+    if l is None:
+        return set()
+    return {tl for tl, tp in b.ref_origins().get(l, ())} | {l}
+
+
+def index_below_len(b, ops, at):
+    """`len(X) - idx - 1` / `len(X) - (idx + 1)` where idx is the enumerate() index of an iteration over X's own
+    elements (chars of an ASCII-digit string, items of a Vec): idx <= len - 1, so neither subtraction underflows.
+    Accepted shapes: Sub[len(X), idx(+<=1)] and Sub[len(X) - idx, const 1]."""
+    a, c = ops
+    sa = b.slice(a, at=at, through_calls=True)
+    sc = b.slice(c, at=at, through_calls=True) if isinstance(c, dict) and c.get("k") != "const" else None
+    lens = [x for x in sa.calls if K.meth(x.path) == "len" and x.matches(r".*(String|str|Vec|slice).*::len")]
+    if len(lens) != 1:
+        return None
+    X = set()
+    for src in b.slice_args(lens[0], [0], through_calls=False).locals:
+        X.add(src)
+    X |= _origin_locals(b, lens[0])
+
+    def idx_over_X(sl):
+        enum = [x for x in sl.calls if x.matches(r"std::iter::Iterator::next") and "Enumerate<" in ((x.callee.get("self_ty") or "") + " ".join(x.callee.get("targs", [])))]
+        srcs = [x for x in sl.calls if x.matches(r"core::str::<impl str>::(chars|bytes|char_indices)", r"core::slice::<impl \[T\]>::iter")
+                or (x.matches(r"std::iter::IntoIterator::into_iter") and x.args and b.locals[operand_local(x.args[0]) or 0]["ty"].startswith("&"))]
+        if not enum or not srcs:
+            return False
+        return all((_origin_locals(b, x) | b.slice_args(x, [0], through_calls=False).locals) & X for x in srcs)
+
+    if sc is None:
+        k = const_val(c)
+        # Sub[len(X) - idx, 1]
+        if isinstance(k, int) and k <= 1 and idx_over_X(sa) and sum(1 for d in sa.defs if d["kind"] == "assign" and d["rv"]["k"] == "bin" and d["rv"]["op"].startswith("Sub")) == 1 \
+                and not [d for d in sa.defs if d["kind"] == "assign" and d["rv"]["k"] == "bin" and d["rv"]["op"].startswith("Add")]:
+            return "len(X) - idx - 1 with idx an enumerate() index over X's own elements (idx <= len - 1)"
+        return None
+    direct = b.slice(a, at=at, through_calls=False)
+    if idx_over_X(sc) and [x.bb for x in direct.calls] == [lens[0].bb] and not [t for t in direct.atoms if t[0] == "binop"]:
+        adds = [d for d in sc.defs if d["kind"] == "assign" and d["rv"]["k"] == "bin" and d["rv"]["op"].startswith("Add")]
+        okc = all(isinstance(const_val(d["rv"]["b"]), int) and const_val(d["rv"]["b"]) <= 1 for d in adds) and len(adds) <= 1
+        subs = [d for d in sc.defs if d["kind"] == "assign" and d["rv"]["k"] == "bin" and d["rv"]["op"].startswith(("Sub", "Mul", "Shl"))]
+        if okc and not subs:
+            return "len(X) - (idx + <=1) with idx an enumerate() index over X's own elements (idx + 1 <= len)"
     return None
 
 
